@@ -223,9 +223,11 @@ func (s *Service) handleStatusRequest(msg service.DIDCommMsg, myDID, theirDID st
 		LastDeliveredTime: outbox.LastDeliveredTime,
 		LastRemovedTime:   outbox.LastRemovedTime,
 		TotalSize:         outbox.TotalSize,
-		Thread: &decorator.Thread{
-			PID: request.Thread.ID,
-		},
+		Thread:            &decorator.Thread{},
+	}
+
+	if request.Thread != nil {
+		resp.Thread.PID = request.Thread.ID
 	}
 
 	msgBytes, err := json.Marshal(resp)
